@@ -12,7 +12,8 @@ NEGS_C10 = {"NEG_C10_LifoLocalQueue.cfg": ["C10_StartOrderRespectsSendOrder"],
             "NEG_C10_SpawnTrueWhenGone.cfg": ["C10_SpawnFalseWhenGone"],
             "NEG_C10_RxDropAtThreadExit.cfg": ["C10_SpawnFalseWhenGone"],
             "NEG_C10_JoinEarly.cfg": ["C10_JoinAfterLoopEnd"],
-            "NEG_C10_BlockOnInexact.cfg": ["C10_BlockOnOutput"]}
+            "NEG_C10_BlockOnInexact.cfg": ["C10_BlockOnOutput"],
+            "NEG_C10_DequeueBatchLosesWake.cfg": ["C10_AcceptedStarts"]}
 
 
 def run(ctx):
@@ -34,7 +35,10 @@ def run(ctx):
                             "self_spawn/self_stop_then_spawn (sent from the arbiter's own thread), plus scenarios with "
                             "2-3 Systems hosted one after another by one OS thread (marker command per arbiter); every "
                             "task that never completes on a worker arbiter owns a guard whose destructor (end of the loop "
-                            ".. exit of the thread) sends through its handle and through Arbiter::current()"}
+                            ".. exit of the thread) sends through its handle and through Arbiter::current(); bursts of "
+                            "40-100 commands queued on one arbiter while its thread is blocked in a task / on the system "
+                            "arbiter before run() is entered, all of which must start; a System hosted by a thread on "
+                            "which an older, still living System is stopped and run to completion first"}
     rt.flow(ctx, flavour="c10", tcfg="Trace_C10.cfg",
             nt_rule="a run is non-trivial when two sends to the same arbiter were ordered by real-time precedence and "
                     "the later one started (order), or a send started after a stop() call on its arbiter had ended "
